@@ -222,10 +222,9 @@ func (m *clientHelloMsg) marshal() []byte {
 			if m.extendedRandomEnabled {
 				b.AddUint16(extensionExtendedRandom)
 				b.AddUint16LengthPrefixed(func(b *cryptobyte.Builder) {
-					exLen := len(m.extendedRandom)
-					fullLength := 2 + exLen
-					b.AddUint16(uint16(fullLength))
-					b.AddUint16(uint16(exLen))
+					// The enclosing length-prefixed block already carries the
+					// extension length; extension_data is one uint16-prefixed value.
+					b.AddUint16(uint16(len(m.extendedRandom)))
 					b.AddBytes(m.extendedRandom)
 				})
 			}
